@@ -4,7 +4,7 @@ and seeded/RESULTS.json. Applies each patch to /repo and undoes it straight afte
 import json, os, re, subprocess, sys, glob
 V = "/verif"
 MAP = {"revert_0f3ec0c": ["C18"], "revert_4eae6a8": ["C14", "C15"], "revert_5963580": ["C17", "C03"], "revert_2eedce8": ["C04"],
-       "revert_ad59ea5": ["C12"], "revert_89e7027": ["C08"], "revert_6aae983": ["C05"], "revert_47a9c7e": ["C05"], "revert_45a10e3": ["C01", "C10"], "revert_ca3531e": ["C01"], "revert_182a9bb": ["C11", "C02", "C12"], "revert_c0513cb": ["C12", "C10"], "revert_f0353e2": ["C12"], "revert_9cbfd9a": ["C12", "C01"]}
+       "revert_ad59ea5": ["C12"], "revert_89e7027": ["C08"], "revert_6aae983": ["C05"], "revert_47a9c7e": ["C05"], "revert_45a10e3": ["C01", "C10"], "revert_ca3531e": ["C01"], "revert_182a9bb": ["C11", "C02", "C12"], "revert_c0513cb": ["C12", "C10"], "revert_f0353e2": ["C12"], "revert_9cbfd9a": ["C12", "C01"], "revert_d4f0af3": ["C01"]}
 def props_of(name):
     for k, v in MAP.items():
         if name.startswith(k): return v
